@@ -870,11 +870,14 @@ package ro
 
 //@ operator ThrottleTime
 //@   props C04 C16 C08
-//@   note a value passes only when strictly more than the configured duration (in the clock's own unit, nanoseconds) has elapsed since the last value that passed
+//@   note the first value of a subscription always passes (it opens the first window); afterwards a value passes only when strictly more than the configured duration (in the clock's own unit, nanoseconds) has elapsed since the last value that passed
+//@   ghost seen bool = false
+//@   inv first == !seen
 //@   track call.NowNanoMonotonic
 //@   requires intervalNano == interval
-//@   on next(ctx, value) when lastAt + interval < res(call.NowNanoMonotonic) : emits call.NowNanoMonotonic(), Next(ctx, value) ; post lastAt' == res(call.NowNanoMonotonic)
-//@   on next(ctx, value) when lastAt + interval >= res(call.NowNanoMonotonic) : emits call.NowNanoMonotonic() ; post lastAt' == lastAt
+//@   on next(ctx, value) when !seen : emits call.NowNanoMonotonic(), Next(ctx, value) ; seen' = true ; post lastAt' == res(call.NowNanoMonotonic)
+//@   on next(ctx, value) when seen && lastAt + interval < res(call.NowNanoMonotonic) : emits call.NowNanoMonotonic(), Next(ctx, value) ; post lastAt' == res(call.NowNanoMonotonic)
+//@   on next(ctx, value) when seen && lastAt + interval >= res(call.NowNanoMonotonic) : emits call.NowNanoMonotonic() ; post lastAt' == lastAt
 
 //@ operator DelayEach
 //@   props C04 C16 C08
